@@ -360,6 +360,11 @@ func (s *Scanner) getData(bo *retry.Backoffer) error {
 			s.nextStartKey = kv.NextKey(lastKey)
 		} else {
 			s.nextEndKey = lastKey
+			if len(s.nextStartKey) > 0 && kv.CmpKey(s.nextStartKey, s.nextEndKey) >= 0 {
+				// The last key is the lower bound itself: nothing is left, do not ask for the empty range
+				// [lower, lower), which lies outside the region that ends at lower.
+				s.eof = true
+			}
 		}
 		return nil
 	}
